@@ -47,7 +47,8 @@ SERVICE_NAMES = ["Quote Service", "svcB"]
 PARAM_NAMES = ["p", "q", "left arg"]
 ENTRY_NAMES = ["t1", "Sub total", "u2", "w"]
 COLUMN_NAMES = ["c1", "col B", "c3"]
-FRESH_NAMES = ["zz unused", "Other", "junk_1", "Shipping"]
+# (the last three are names of built-in functions the generated logic calls: an input entry of that name is still outside every closure)
+FRESH_NAMES = ["zz unused", "Other", "junk_1", "Shipping", "count", "sum", "string length"]
 OUT_NAMES = ["o1", "out B"]
 DANGLING_NAMES = ["Age", "Risk", "k9", "Other", "Shipping"]     # single words: an unbound multi-word name is a lexer matter (C06)
 
@@ -377,9 +378,18 @@ class Graph:
         k = self.b.pick_kind(ctx_ok=False) if s.bool(0.5) else NUM
         L, k = self.b.logic(form, k, env, s.int(0, 1), fname=(s.choice(callable_req) if callable_req else None))
         L, k = self.b.ensure_used(L, k, list(params) + list(req), env)
+        dangling = []
+        if L[0] == "lit" and s.bool(0.12):
+            # a name that is neither a parameter nor required knowledge (a modelling slip: input data referenced from a knowledge model):
+            # unbound in the model's logic whatever the input context holds
+            cands = [n for n in DANGLING_NAMES if n not in env and n not in mentions(L)]
+            if cands:
+                dn = s.choice(cands)
+                dangling.append(dn)
+                L, k = ["lit", ["list", [L[1], ["name", dn]]]], ("list", ("any",))
         vtype = TYPE_OF_KIND.get(k) if s.bool(0.2) else None
         self.m["bkms"].append({"name": name, "params": [[p, t] for p, t in zip(params, typed)], "reqK": list(req), "logic": L, "type": vtype,
-                               "pk": [TYPE_OF_KIND[x] for x in pk]})
+                               "pk": [TYPE_OF_KIND[x] for x in pk], "dangling": dangling})
         self.b.kinds[name] = ("fn", tuple(pk), k)
         self.b.fns[name] = list(params)
         self.m["order"].append(["bkm", name])
@@ -739,6 +749,8 @@ def closure(model, name):
             return
         kind, x = idx[k]
         if kind == "bkm":
+            for n in x.get("dangling", []):
+                add("dangling", n)
             for r in x["reqK"]:
                 know(r)
         else:
@@ -764,6 +776,8 @@ def closure(model, name):
     elif kind == "bkm":
         for p, _ in x["params"]:
             add("params", p)
+        for n in x.get("dangling", []):
+            add("dangling", n)
         for r in x["reqK"]:
             know(r)
     else:
